@@ -45,8 +45,11 @@ chk("C16",
 chk("C20",
     "Coq theorems: 1 <= ESS <= N, scale invariance, uniform case (Cauchy-Schwarz by induction over Q); trimming "
     "contract for every threshold oracle (largest admissible grid index, upper set, one mask for samples and weights, "
-    "renormalised, ESS ratio met, termination when thr(0) <= min); volume metric non-negative, weight-scale and "
-    "affine invariant on the full-rank branch (MathComp matrices over any real field). Tie: regenerated Gen.Weights + "
+    "renormalised, ESS ratio met) whenever some grid index meets the request - always, when thr(0) <= min and the fraction is <= 1; the "
+    "routine returns for every oracle, fraction and grid (it stops at grid index 0 whatever the test says there); volume metric: non-negative "
+    "and weight-scale invariant on every branch (vvgen K g: any treatment K of the covariance, any post-processing g of the deviation), "
+    "affine invariant on the full-rank branch with or without the clip (MathComp matrices over any real field). Tie: regenerated Gen.Weights "
+    "(incl. the statement-by-statement shape of volume_variation) + "
     "Link, Coq model replayed against trim_weights with the recorded percentile oracle, exact-rational references.",
     "Trusted: Coq kernel/vm_compute; python translator/harness; numpy.percentile as oracle; numpy.linalg.inv as exact "
     "inverse; float rounding idealised (decisions within 1e-9 of a threshold are not compared).",
@@ -109,10 +112,15 @@ chk("C08",
     "reachable state (heap model of C17); for every op list of atomic shape, every crash point and every surviving "
     "prefix of un-synced bytes the final name is absent/old-complete or new-complete, and the op list extracted from "
     "save_sampler_state has that shape for arbitrary write chunks; a complete save leaves exactly the written bytes "
-    "durable; checkpoints are written exactly at t0 + k*save_every. Pinned direct write refuted. Tie: Gen.Checkpoint "
+    "durable; checkpoints are written exactly at t0 + k*save_every; the run-level bookkeeping machine (iteration counter, call counter, one "
+    "history record per iteration, numbered checkpoints; arbitrary decisions of schedule / kernel / caller): run, checkpoint, load into a fresh "
+    "sampler, run on with any cadence and batch size = the uninterrupted run in numbers, calls and history; prefix kept, numbering gap-free, "
+    "counter = running total of likelihood rows. Pinned direct write refuted. Tie: Gen.Checkpoint "
     "(IO op list, load plumbing, pool detach, cadence) + Link; every checkpoint of real runs reloaded and compared bit "
-    "for bit; resume from checkpoints (numbering, identical prefix, postconditions); the real IO trace; subprocess "
-    "crash injection (os._exit) before every IO event and inside writes.",
+    "for bit; resume from checkpoints (numbering, identical prefix, postconditions), from every checkpoint for a reused clustering; fresh "
+    "and resumed runs against the bookkeeping machine evaluated in Coq on the run's own decisions; the real IO trace; subprocess "
+    "crash injection (os._exit) before every IO event and inside writes, injected I/O errors, power-loss emulation, a temporary directory on "
+    "another filesystem (emulated EXDEV).",
     "Trusted: Coq kernel; python translator/harness; crash model (un-fsynced bytes survive in any prefix, rename "
     "atomic); dill.load rejects truncated dumps; the pickled sampler blob inside the checkpoint is not compared.",
     "machine-checked proof in Coq (crash-prefix induction over IO lists; heap-model round-trip) + translator/fault-injection correspondence",
@@ -138,11 +146,15 @@ chk("C09",
     "it independent of the seed in force before (the formal content of 'replays the same innovations'); without "
     "seeding calls the stream position is the earlier state advanced by the draw count and distinct seeds stay "
     "distinct; the seeding call sites extracted from the whole package contain no constant reseed on a run/fit path, "
-    "all are None-guarded, and fresh initialisation seeds with the configuration's random_state. Tie: Gen.Seeding "
+    "all are None-guarded, and fresh initialisation seeds with the configuration's random_state; a resumed run that restores the recorded "
+    "generator state is where the uninterrupted run is (the code records and restores it: extracted), whereas seeding again on load replays "
+    "the first iterations. Tie: Gen.Seeding "
     "(static extraction over tempest/*.py) + Link; np.random.seed wrapped during real runs/fits and the recorded trace "
-    "compared with the predicted one; behavioural replays (same seed twice, seed+1, seed-dependence after fit/run).",
+    "compared with the predicted one; behavioural replays (same seed twice and three times with a reused clustering, seed+1, ends of the seed "
+    "range, seed-dependence after fit/run, lifecycle: construction, other activity, load of unseeded checkpoints, resume of seeded runs).",
     "Trusted: Coq kernel; python extractor/harness; generator abstracted (additive, injective advance); statistical "
-    "independence carried only as absence of shared innovations; checkpoint load re-seeds with the stored user value.",
+    "independence carried only as absence of shared innovations; checkpoints without a recorded generator state (older versions) are "
+    "still loaded by seeding with the stored user value.",
     "machine-checked proof in Coq (trace semantics over an abstract generator) + static call-site extraction/trace correspondence",
     "DESIGN.md section 6, C09")
 
@@ -222,13 +234,17 @@ chk("C19",
     "Coq/MathComp theorems over any real field, for every degrees-of-freedom oracle that reads the Mahalanobis "
     "distances only: one ECME step commutes with x -> xA+b for every invertible A and every b (nu unchanged, scale -> "
     "A^T Sigma A, location -> mu A + b); the new location is a convex combination of the rows (inside the bounding box "
-    "coordinate-wise); the new scale is symmetric with non-negative quadratic form; the weights are positive. Tie: "
+    "coordinate-wise); the new scale is symmetric with non-negative quadratic form; the weights are positive; the starting point "
+    "(coordinate medians, biased covariance + diag(variances)/n) - which is what the routine returns whenever nu comes out infinite - "
+    "is equivariant under x_j -> a_j x_s(j) + b_j (a_j > 0, s a permutation), lies in the bounding box and is symmetric positive definite as "
+    "soon as no coordinate is constant. Tie: "
     "Gen.Student (loop-body formulas, what the nu update and the stopping test read, initial values, dof fallback in "
     "both ModeStatistics constructors, the root bracket) + Link; an executable exact-rational twin of the step "
-    "replayed against fit_mvstud(max_iter=1); metamorphic fit(g(X)) = g(fit(X)) over scalings 1e-6..1e6, translations, "
+    "replayed against fit_mvstud(max_iter=1), and of the starting point against fit_mvstud(max_iter=0) and every fit returned with nu = inf; "
+    "metamorphic fit(g(X)) = g(fit(X)) over scalings 1e-6..1e6, translations, "
     "permutations; well-posedness on Gaussian/t/skewed/contaminated data; recovery on large t samples; fallback with a stubbed fit.",
-    "Trusted: Coq kernel/vm_compute; python extractor/harness; the digamma root (bisect) is an oracle; equivariance of the "
-    "initial median/covariance and parameter recovery are checked numerically only; float rounding idealised.",
+    "Trusted: Coq kernel/vm_compute; python extractor/harness; the digamma root (bisect) is an oracle; parameter recovery is "
+    "checked numerically only (and fails on the pinned routine: known finding); float rounding idealised.",
     "machine-checked proof in Coq/MathComp (matrix algebra over real fields) + structure extraction/exact-rational step correspondence + metamorphic tests",
     "DESIGN.md section 6, C19")
 
@@ -255,16 +271,18 @@ chk("C03",
     "a^2+sigma^2=1 (MathComp), hence the joint density of (x,s,y) is symmetric; the extracted coefficients satisfy "
     "a^2+sigma^2=1. Boundaries: out-of-cube proposals are rejected (extracted), and for every reference-reversible "
     "proposal on the whole space that chain is in detailed balance with the target extended by zero, for every pair of "
-    "points, and never leaves the cube; the symmetric RWM step stays symmetric under wrapping and folding (sum over "
-    "pre-images, every symmetric truncation); tpCN rejects on every coordinate (extracted) because wrapping a proposal "
+    "points, and never leaves the cube; a one-coordinate symmetric step stays symmetric under wrapping and folding (sum over "
+    "pre-images, every symmetric truncation); with several coordinates and a step law even only under the joint sign change (correlated "
+    "Gaussian) wrapping stays symmetric and folding is refuted, so RWM wraps periodic coordinates and rejects at reflective walls "
+    "(extracted); tpCN rejects on every coordinate (extracted) because wrapping a proposal "
     "reversible w.r.t. a non-periodic reference is refuted; the pinned tree's redraw-until-inside rule balances pi*P_in "
     "(refuted). Tie: Gen.Kernel/Gen.Shift + Links; injected-randomness proposals, gamma parameters and correction factors "
     "(incl. nu < 2, and on the state reached after real iterations) against verified enclosures of the generated "
     "definitions; the Metropolis test with injected uniforms; fixed-seed ensemble stationarity for both kernels on "
-    "interior, periodic, reflective and hard-boundary targets.",
+    "interior, periodic, reflective and hard-boundary targets and on two-coordinate targets with a correlated scale matrix; NaN ratios rejected.",
     "Trusted: Coq kernel; Reals axioms/classic/funext (named in evidence); python extractor/harness; the lift from "
     "pointwise density identities to measures and the two classical integral facts are not formalised; step-size "
-    "adaptation, correlated reflective folds and tpCN with folded coordinates are not claimed.",
+    "adaptation is not covered (each step's kernel at fixed sigma is what is proved).",
     "machine-checked proof in Coq (real analysis; MathComp bilinear algebra) + formula extraction/verified-enclosure correspondence + ensemble replays",
     "DESIGN.md section 6, C03")
 
